@@ -433,9 +433,10 @@ def link_text(blocks) -> bytes:
 
 
 def collapse(names):
+    """Order in which the children were FIRST inspected."""
     out = []
     for n in names:
-        if not out or out[-1] != n:
+        if n not in out:
             out.append(n)
     return out
 
